@@ -83,16 +83,24 @@ Advance(tags) ==
   /\ Flag(l, LiveTags(tags, Beyond \cup dead))
 
 ---------------------------------------------------------------------------
+\* d = [mod, volume, cutoff, resonance, portamento time (0..127), portamento switch, sustain switch] as
+\* shown by the new receiver before any byte: the power-on state, which controller 121 restores
 TNew ==
   /\ e.op = "new"
-  /\ New(e.c)
+  /\ IF Has(e, "d")
+       THEN NewWith(e.c, [cc |-> [mod |-> e.d[1], vol |-> e.d[2], cut |-> e.d[3], res |-> e.d[4], pt |-> e.d[5]],
+                          porta |-> e.d[6], sust |-> e.d[7]])
+       ELSE New(e.c)
   /\ l' = l + 1 /\ dead' = {} /\ drv' = e.drv /\ lastPb' = <<8192, 0>> /\ snap' = <<>>
 
 \* the byte completes a control change on the listened channel whose number C18 does not name: whatever
 \* it changes is (also) a deviation from C18's "no other controller number changes anything"
 OtherCC == /\ rs >= 176 /\ rs <= 191 /\ rs % 16 = chan /\ d1 # -1 /\ e.b < 128
            /\ d1 \notin {1, 7, 71, 74, 5, 65, 64, 121, 123}
-OwnCC(tags) == IF tags # {} /\ OtherCC THEN tags \cup {<<"C18", "other-controller-changes-something">>} ELSE tags
+\* (only a deviation that is reported here for the first time: one that has been visible since an earlier
+\* event, e.g. beyond the premise of C04, was not caused by this byte)
+OwnCC(tags) == IF OtherCC /\ LiveTags(tags, Beyond \cup dead) # {}
+                 THEN tags \cup {<<"C18", "other-controller-changes-something">>} ELSE tags
 
 TByte ==
   /\ e.op = "b"
